@@ -34,6 +34,7 @@ type weights struct {
 	exactPct   int // exact fee on wrk/bcn transactions
 	execPct    int // wrap the first message into authz.exec
 	multiPct   int // multi-message transactions
+	bulkPct    int // transactions of several storage purchases for different registrations
 	scramble   int // signer focus: random signer / named address
 	granterPct int // use an existing fee grant
 	lockedPct  int // prefer holders of locked eFUND as payers
@@ -118,7 +119,9 @@ func newWeights(focus string) (*weights, error) {
 	case "genesis":
 		w.genesis = true
 	case "crash":
-		w.crashPct = 5
+		w.crashPct, w.bulkPct = 5, 8
+	case "reg":
+		w.bulkPct = 4
 	case "quorum":
 		w.govPct, w.quorum = 55, true
 	}
